@@ -33,6 +33,9 @@ type l5Op struct {
 	D     int    `json:"d,omitempty"`
 	Shape int    `json:"shape,omitempty"`
 	Q     int    `json:"q,omitempty"`
+	// Twin (mkq only): this Query is the very same Go object as Query Twin, to be run a
+	// second time; for the model it is a second Query built at the same moment
+	Twin int `json:"twin,omitempty"`
 }
 
 func genL5(r *rng.R) []l5Op {
@@ -50,6 +53,36 @@ func genL5(r *rng.R) []l5Op {
 	lastShape := 1
 	nQ := 0
 	var pendingQ []int
+	if r.Chance(1, 4) {
+		// directed opening: a Query is built (and perhaps run once), its cached statement is
+		// evicted by another shape, garbage is collected, then the held Query is run (again)
+		a := r.Pick9()
+		b := r.Pick9()
+		for b == a {
+			b = r.Pick9()
+		}
+		if r.Chance(1, 2) {
+			add(l5Op{Op: "run", S: 1, D: 1, Shape: a})
+		}
+		nQ++
+		add(l5Op{Op: "mkq", Q: nQ, S: 1, D: 1, Shape: a})
+		twin := r.Chance(2, 3)
+		if twin {
+			nQ++
+			add(l5Op{Op: "mkq", Q: nQ, S: 1, D: 1, Shape: a, Twin: nQ - 1})
+			add(l5Op{Op: "runq", Q: nQ - 1})
+		}
+		pendingQ = append(pendingQ, nQ)
+		add(l5Op{Op: "run", S: 1, D: 1, Shape: b})
+		if r.Chance(3, 4) {
+			add(l5Op{Op: "gc"})
+		}
+		if r.Chance(1, 2) {
+			add(l5Op{Op: "runq", Q: nQ})
+			pendingQ = nil
+		}
+		lastShape = b
+	}
 	for i := 0; i < n; i++ {
 		switch x := r.Intn(20); {
 		case x < 11 && len(liveS) > 0 && len(liveD) > 0:
@@ -67,7 +100,15 @@ func genL5(r *rng.R) []l5Op {
 			if r.Chance(1, 3) {
 				shape = r.Pick9()
 			}
-			add(l5Op{Op: "mkq", Q: nQ, S: liveS[r.Intn(len(liveS))], D: liveD[r.Intn(len(liveD))], Shape: shape})
+			o := l5Op{Op: "mkq", Q: nQ, S: liveS[r.Intn(len(liveS))], D: liveD[r.Intn(len(liveD))], Shape: shape}
+			add(o)
+			if r.Chance(1, 2) {
+				// the same Query object will be run twice
+				nQ++
+				pendingQ = append(pendingQ, nQ)
+				o.Twin, o.Q = o.Q, nQ
+				add(o)
+			}
 		case x == 12 && len(pendingQ) > 0:
 			i := r.Intn(len(pendingQ))
 			add(l5Op{Op: "runq", Q: pendingQ[i]})
@@ -277,7 +318,11 @@ func runL5Case(h []l5Op) (obs *l5Obs) {
 		case "mkq":
 			ints, strs := l5Args(op.Shape)
 			ctx := context.WithValue(context.Background(), fakedrv.CtxKey{}, fmt.Sprintf("d%d-k%d", op.D, op.Shape))
-			queries[op.Q] = dbs[op.D-1].db.Query(ctx, stmts[op.S-1], ints, strs)
+			if op.Twin != 0 {
+				queries[op.Q] = queries[op.Twin]
+			} else {
+				queries[op.Q] = dbs[op.D-1].db.Query(ctx, stmts[op.S-1], ints, strs)
+			}
 		case "runq":
 			var rows []Row
 			q := queries[op.Q]
